@@ -142,3 +142,34 @@ Example C10_ex_group_by_commas :
                       r_ident "a"; K KComma; r_ident "b"; K KOther] /\
   parse (render (mkOpts (num_of []) [] [] [] [true] false false None true) s) = POk s.
 Proof. vm_compute. repeat split; reflexivity. Qed.
+
+(* ---- the converse direction, for the facts other properties rely on (C18's `parser_shape`): EVERY
+        SELECT the parser returns, from ANY token list with ANY fuel, has a select list that is
+        exactly [*] or is non-empty without any asterisk, and LIMIT / OFFSET >= 0 (0 when absent).
+        The grammar has no subqueries: SSelect is built only by the top-level SELECT branch.
+        Proofs/ParserShape.v. ---- *)
+From Mkdb Require Import Model.Select Spec.SelectSpec Proofs.ParserShape.
+
+Theorem C10_select_shape : forall fuel toks q,
+  parse_f fuel toks = POk (SSelect q) ->
+  (sel_list q = [mkDC SPStar ""] \/ (sel_list q <> [] /\ forallb nostar_dc (sel_list q) = true)) /\
+  0 <= sel_limit q /\ 0 <= sel_offset q.
+Proof. exact parse_f_select_facts. Qed.
+Print Assumptions C10_select_shape.
+
+Theorem C10_select_shape_tokens : forall toks q,
+  parse_tokens toks = POk (SSelect q) -> parser_shape q = true.
+Proof. exact parse_select_shape. Qed.
+Print Assumptions C10_select_shape_tokens.
+
+Theorem C10_select_shape_pipeline : forall raws q,
+  parse_pipeline raws = POk (SSelect q) -> parser_shape q = true.
+Proof. exact pipeline_select_shape. Qed.
+Print Assumptions C10_select_shape_pipeline.
+
+(* an asterisk anywhere else is refused, and so is a negative LIMIT / OFFSET in a hand-made TokenList *)
+Example C10_ex_star_mixed_rejected :
+  parse [K KSelect; r_ident "a"; K KComma; K KAstrsk; K KFrom; r_ident "t"] = PErr EUnexpected /\
+  parse [K KSelect; K KAstrsk; K KComma; r_ident "a"; K KFrom; r_ident "t"] = PErr EUnexpected /\
+  parse [K KSelect; K KAstrsk; K KFrom; r_ident "t"; K KLimit; (KInt, "-1")] = PErr ENegLimit.
+Proof. vm_compute. repeat split; reflexivity. Qed.
